@@ -245,7 +245,7 @@ theorem C10_histories (ext : Ext) (fields : List Field) (r0 : B) (h0 : newRoot f
   exact C01.C01_build_decode' ext fields _ _ hschema hcov hrows hnar' hm
 
 /-- **every build returns well-formed arrays of its batch's length** (C03 along histories): the arrays of build `k` are
-well-formed Arrow arrays of the declared fields (the tightened `Spec.WF`: structurally valid AND of exactly the field's data
+well-formed Arrow arrays of the declared fields (`Spec.WF`: structurally valid AND of exactly the field's data
 type), one per field, each of exactly `(batch k).length` rows.
 Hypotheses: those of `C01.C03_wf'` — `hplain`: no metadata on a Map's entries field (known finding
 C03-map-entries-metadata); `hsafe` is `Safe r0 ∨ coveredF` (decidable on the schema; excluded: a dictionary with
